@@ -401,9 +401,9 @@ CORPUS = [
 ]
 
 
-def corpus(tier="quick", seed=0, want=None, exclude=("zsr",)):
-    """exclude: program tags to leave out ('zsr' = the zero-size stored reduction that is a listed C01 finding
-    is only part of C01's own program list)"""
+def corpus(tier="quick", seed=0, want=None, exclude=()):
+    """exclude: program tags to leave out ('zsr' marks zero-size stored reductions: once a listed C01 finding,
+    repaired by /repo 0f544b0, so these programs are now part of every check's list)"""
     progs = [p for p in CORPUS if not (set(p.tags) & set(exclude))]
     if want:
         progs = [p for p in progs if p.name in want]
